@@ -88,6 +88,9 @@ class PythonCryptoEndpoint(CryptoEndpoint, EndpointListener):
         # Ensure multiple calls don't keep adding the same listener.
         self.endpoint.remove_listener(self)
         self.endpoint.add_prefix_listener(self, self.prefix)
+        if self.tunnel_community is not tunnel_community:
+            # We listen on behalf of the TunnelCommunity: stop when it is unloaded.
+            tunnel_community.register_shutdown_task(self.endpoint.remove_listener, self)
         self.tunnel_community = tunnel_community
 
     @property
